@@ -81,12 +81,14 @@ impl crate::inflight::SizedRequest for Decoded {
         }
     }
 
+    /// Publish packet which payload continues in payload chunks
     fn is_publish(&self) -> bool {
-        matches!(self, Decoded::Publish(..))
+        matches!(self, Decoded::Publish(pkt, payload, _) if pkt.payload_size as usize > payload.len())
     }
 
+    /// Payload chunk, more chunks are expected
     fn is_chunk(&self) -> bool {
-        matches!(self, Decoded::PayloadChunk(..))
+        matches!(self, Decoded::PayloadChunk(_, false))
     }
 }
 
